@@ -360,6 +360,51 @@ func mkUpdate(m *mModel, table string, p seqPred) stmt {
 		}}
 }
 
+// mkUpdateHeld is an UPDATE of every row that sets the last column to the value the middle row already holds
+// and every other non-key column to a value no row holds: rows that are partly up to date before the statement.
+func mkUpdateHeld(m *mModel, table string) (stmt, bool) {
+	t := m.Tables[table]
+	if len(t.Cols) < 3 || len(t.Rows) < 3 {
+		return stmt{}, false
+	}
+	mid := t.Rows[len(t.Rows)/2]
+	last := len(t.Cols) - 1
+	if mid.Vals[last] == nil {
+		return stmt{}, false
+	}
+	var sets []string
+	newVals := map[int]any{}
+	for i, c := range t.Cols {
+		switch {
+		case i == 0:
+			continue
+		case i == last:
+			newVals[i] = mid.Vals[i]
+		case c.Type == "varchar":
+			newVals[i] = fmt.Sprintf("h%d", mid.Vals[0])
+		case c.Type == "boolean":
+			b, _ := mid.Vals[i].(bool)
+			newVals[i] = !b
+		default:
+			newVals[i] = int64(7000) + mid.Vals[0].(int64)
+		}
+		sets = append(sets, fmt.Sprintf("%s = %s", c.Name, sqlLit(newVals[i])))
+	}
+	return stmt{SQL: fmt.Sprintf("UPDATE %s SET %s", table, strings.Join(sets, ", ")), Kind: "update", Table: table, N: len(t.Rows),
+		apply: func(m *mModel, prefix int) {
+			done := 0
+			for _, r := range m.Tables[table].Rows {
+				if prefix >= 0 && done >= prefix {
+					break
+				}
+				for i, v := range newVals {
+					r.Vals[i] = v
+				}
+				done++
+			}
+		}}, true
+}
+
 func mkDelete(m *mModel, table string, p seqPred) stmt {
 	t := m.Tables[table]
 	n := 0
@@ -951,6 +996,8 @@ type alphaOpt struct {
 	Deletes       bool
 	NonePreds     bool     // include statements matching no row
 	FewDeletes    bool     // only DELETE upper half / DELETE all (not "= last row")
+	LastDelete    bool     // only DELETE of the newest row
+	HeldUpdate    bool     // UPDATE of all rows of a table of >= 3 columns to values the middle row partly holds already
 	NullInsert    bool     // INSERT naming only the first column (the others are NULL)
 	EmptyInsert   bool     // a single-row INSERT whose varchar values are empty strings (not NULL)
 	FailingInsert bool     // a single-row INSERT over the size limit (refused; may use up a row id)
@@ -999,7 +1046,14 @@ func (w *world) alphabet(o alphaOpt) []stmt {
 			out = append(out, mkUpdate(m, tn, seqPred{"", 0}))
 			m.Gen = gen // generation advances only when a statement is actually chosen (see pick)
 		}
-		if o.Deletes && len(t.Rows) > 0 {
+		if o.HeldUpdate {
+			if st, ok := mkUpdateHeld(m, tn); ok {
+				out = append(out, st)
+			}
+		}
+		if o.Deletes && o.LastDelete && len(t.Rows) > 0 {
+			out = append(out, mkDelete(m, tn, seqPred{"=", t.Inserted}))
+		} else if o.Deletes && len(t.Rows) > 0 {
 			out = append(out, mkDelete(m, tn, seqPred{">", half}))
 			if !o.FewDeletes {
 				out = append(out, mkDelete(m, tn, seqPred{"=", t.Inserted}))
